@@ -328,25 +328,30 @@ example := C13_empty_after_quiet_firings g0_ginv rfl (T := E + 100) (by decide)
 theorem gH_conns : gH.sys.conns = [] := by decide +kernel
 theorem gH_clock : gH.clock = 22 := by decide +kernel
 
-example : (gH.run ([.sweep 100 false, .sweep (100 + P) false, .sweep (100 + 2 * P) true] ++
-    [.sweep (100 + 3 * P) false])).sys.db.Empty :=
-  C13_empty_on_schedule_clock gH_reach gH_conns _ (by decide) (by rw [gH_clock]; decide)
+/-- index of the first firing of the timer started at 100 that is at or after `22 + E` (3 for the shipped constants
+    E = 5280, P = 2400: firings at 100, 2500, 4900, 7300 and `22 + E = 5302`); computed, so that the examples below hold
+    for whatever constants the source has (they are regenerated from server_tap.py on every run) -/
+def kH : Nat := ((22 + expirationTicks - 100 + periodTicks - 1) / periodTicks).toNat
+
+example : (gH.run (firings 100 (fun j => decide (j + 1 = kH)) kH ++ [.sweep (firingAt 100 kH) false])).sys.db.Empty :=
+  C13_empty_on_schedule_clock gH_reach gH_conns _ (firings_isFiring _ _ _) (by rw [gH_clock]; decide)
 
 example := C13_empty_by_T_E_P gH_reach gH_conns (T := 22) (by
   have := gH_reach.ginv.clockMb; rw [gH_clock] at this; exact this) 100 (by decide) (fun _ => false)
-example := C13_empty_by_T_E_P_clock gH_reach gH_conns 100 (by rw [gH_clock]; decide) (fun j => decide (j = 3))
+example := C13_empty_by_T_E_P_clock gH_reach gH_conns 100 (by rw [gH_clock]; decide) (fun j => decide (j = kH))
 
-/-- the numbers of the audit: E = 5280, P = 2400, clients gone at 22, firings at 100, 2500, 4900, 7300:
-    the first firing at or after `22 + E = 5302` is the one with index 3, at 7300 `< 22 + E + P = 7702` -/
-example : 22 + expirationTicks ≤ firingAt 100 3 ∧ firingAt 100 3 < 22 + expirationTicks + periodTicks ∧
-    ∀ j : Nat, j < 3 → firingAt 100 j < 22 + expirationTicks := by decide
-#guard decide ((gH.run (firings 100 (fun _ => false) 4)).sys.db.Empty)
-#guard decide (¬ (gH.run (firings 100 (fun _ => false) 3)).sys.db.Empty)
--- the state before that firing has clock 4900: `C13_quiesce_reach` would ask for a firing at ≥ 10180
-#guard decide ((gH.run (firings 100 (fun _ => false) 3)).clock = 4900)
+/-- the first firing at or after `22 + E` is the one with index `kH`, and it is before `22 + E + P`
+    (shipped constants: index 3, at 7300, `5302 ≤ 7300 < 7702`) -/
+example : 22 + expirationTicks ≤ firingAt 100 kH ∧ firingAt 100 kH < 22 + expirationTicks + periodTicks ∧
+    ∀ j : Nat, j < kH → firingAt 100 j < 22 + expirationTicks := by decide
+#guard decide ((gH.run (firings 100 (fun _ => false) (kH + 1))).sys.db.Empty)
+#guard decide (¬ (gH.run (firings 100 (fun _ => false) kH)).sys.db.Empty)
+-- the state before that firing has the clock of firing `kH - 1` (4900): `C13_quiesce_reach` would ask for a firing
+-- at `≥ that + E` (10180), later than the one that empties the store
+#guard decide ((gH.run (firings 100 (fun _ => false) kH)).clock = firingAt 100 (kH - 1))
 
 /-- the schedule is a well-formed history from `gH` (so every intermediate state is reachable) -/
-example : gH.WF (firings 100 (fun _ => false) 4) := (firings_wf (by rw [gH_clock]; decide) _ 4).1
+example : gH.WF (firings 100 (fun _ => false) (kH + 1)) := (firings_wf (by rw [gH_clock]; decide) _ (kH + 1)).1
 
 end SweepExample
 
